@@ -6,7 +6,7 @@
     client side with ANY batch splitter that keeps the sequence), Engine.IO control packets sent
     concurrently, the peer's parser, one dispatch goroutine per finished packet.
     "For all schedules" = for every state reachable by any sequence of actions. *)
-From SioV Require Import Base.Conc Sio.Pipeline Sio.PipelineProofs Sio.PipelineCheck Sio.PipelineInst Sio.PipelineConn Sio.PipelineConnProofs.
+From SioV Require Import Base.Conc Sio.Pipeline Sio.PipelineProofs Sio.PipelineCheck Sio.PipelineInst Sio.PipelineConn Sio.PipelineConnProofs Sio.PipelineRecv Sio.PipelineRecvProofs.
 
 (** (a) ON THE WIRE.  Whatever the schedule, the MESSAGE frames the peer has been handed are a
     prefix of [flat_map frames_of ps] where [ps] is an interleaving AT PACKET GRANULARITY of
@@ -181,6 +181,32 @@ Example C02_window_free_example :
                        [CEmit 0; CConnected; CFlush; CEmit 0; CBase DrGet] witness_progs))
   = [mkSP 1 []; mkSP 2 []].
 Proof. vm_compute. split; reflexivity. Qed.
+
+(** (d) THE RECEIVER WITH SEVERAL CONCURRENT DELIVERERS (Sio/PipelineRecv.v; two transports of one
+    socket call OnPacket at the same time in the upgrade window; one OnPacket call is one parserMu
+    critical section).  If every call hands over the frames of whole packets, then for every
+    interleaving of the deliverers the parser never fails, is idle between calls, the calls are an
+    interleaving of the deliverers' call sequences and the parser finishes exactly their packets,
+    call after call, each intact. *)
+Theorem C02_recv_whole_calls :
+  forall (data : Type) (declared : data -> option nat) (max_atts : nat)
+         (streams : list (list (list (frame data)))),
+    Forall (Forall (whole declared max_atts)) streams ->
+  forall s, rreachable declared max_atts streams s ->
+    r_err s = false /\ r_parser s = None /\
+    pops streams (r_order s) = Some (r_fed s, r_streams s) /\
+    exists pss, Forall2 (fun b ps => b = flat_map frames_of ps) (r_fed s) pss /\
+                r_finished s = concat pss.
+Proof. exact (@recv_whole_calls). Qed.
+
+(** The hypothesis is needed: with a deliverer that hands over one frame per call (websocket) a
+    payload of another transport can land between a header and its attachment - neither packet is
+    finished intact (outside C02's settled-transport quantifier; the upgrade window is C07's). *)
+Theorem C02_recv_single_frame_calls_refuted :
+  let decl := fun h : nat => if Nat.eqb h 10 then Some 1 else if Nat.eqb h 20 then Some 1 else Some 0 in
+  let s := exec (rstep decl 0) [0; 1; 0] (rinit recv_witness_streams) in
+  r_finished s <> [] /\ ~ In (mkSP 10 [11]) (r_finished s) /\ ~ In (mkSP 20 [21]) (r_finished s).
+Proof. exact recv_single_frame_calls_refuted. Qed.
 
 (** The instance for the real long-polling batcher (Eio/Batcher.v, C13): it keeps the sequence. *)
 Theorem C02_real_batcher_keeps_sequence :
